@@ -88,7 +88,15 @@ def gen_prog(rng):
 CORPUS = [
     # two flows h0->h1 on the same link (latency 64 ticks), the second one starts at 1024: a fault inside its latency phase must
     # also fail it (lmm::Constraint::get_variable has to go on with the disabled variables after the enabled ones)
-    {"hosts": [0, 1, 0, 1], "progs": [[(1, 0, 4096)], [(2, 0, 0)], [(4, 1024, 0), (1, 1, 4096)], [(2, 1, 0)]], "lat": 64, "topo": 0},
+    # scripts (dates in ticks): the receiver / the sender of the second flow is suspended once the flow is established, then the
+    # link or the peer's host goes off, then the actor is resumed (fixed 36e83ed0fb: that crashed); the suspended flow has a null
+    # sharing penalty like a flow in its latency phase
+    {"hosts": [0, 1, 0, 1], "progs": [[(1, 0, 4096)], [(2, 0, 0)], [(4, 1024, 0), (1, 1, 4096)], [(2, 1, 0)]], "lat": 64, "topo": 0,
+     "scripts": [[(3, 3, 1100), (2, 0, 1200), (4, 3, 1300)], [(3, 2, 1100), (2, 0, 1100), (4, 2, 1101)],
+                 [(3, 3, 1100), (1, 0, 1200), (4, 3, 1300)], [(3, 2, 1030), (1, 1, 1040), (4, 2, 2000)]]},
+    # a remote execution waited by a suspended actor while its host goes off; another execution runs there
+    {"hosts": [0, 2, 1], "progs": [[(5, 1, 2048)], [(4, 16, 0), (5, 1, 4096)], [(4, 8192, 0)]], "lat": 0, "topo": 0,
+     "scripts": [[(3, 0, 100), (1, 1, 200), (4, 0, 300)], [(3, 1, 100), (1, 1, 100), (4, 1, 164)]]},
     # the same through a backbone shared by two different host pairs, three flows, the third one after an execution
     {"hosts": [0, 1, 2, 1, 2, 0], "progs": [[(1, 0, 8192)], [(2, 0, 0)], [(4, 512, 0), (1, 1, 4096)], [(2, 1, 0)],
                                             [(3, 1200, 0), (1, 2, 1024)], [(2, 2, 0)]], "lat": 256, "topo": 1},
@@ -174,6 +182,13 @@ def observations(prog, faults, ev):
                      and not (e[0] == "E" and e[2] in newops)]
             if after and after[0][0] == "X" and newops:
                 after = []                                  # the actor went on and ended by itself at the same date
+            if w[6] == 1 and alive:
+                # an actor that is suspended when the resource goes off makes no step until the control actor resumes it: it is
+                # then that it is served (exception raised by the operation it was blocked on); when it is killed, that is at T
+                end = dead[0] if dead else len(ev)
+                after = [e for e in ev[p + 1 + A:end] if e[0] in "EXD" and e[1] == a][:1]
+                if after and after[0][0] == "D":
+                    after = []
             # the first thing that happens to the actor at date T after the resource went off
             killed = bool(after) and after[0][0] == "X" and (after[0][3] == 1 or (f[0] == 1 and prog["hosts"][a] == f[1]))
             failed = killed and after[0][3] == 1            # an on_exit with failed=0 elsewhere is a normal termination
@@ -229,7 +244,9 @@ def run(ctx):
                        "of 2^-12 s, or (40%%) 2-3 sender/receiver pairs sharing a link whose senders start at different dates; plus "
                        "%d corpus programs enumerated in full. faults: every host and link x every distinct event date of the "
                        "fault-free run and +-1 tick and, with latencies, every operation start + latency/2, + latency, + latency +-1 "
-                       "tick (quick tier: a sample of 10 + 8 dates per generated program), plus random pairs of faults. non-trivial "
+                       "tick (quick tier: a sample of 10 + 8 dates per generated program), plus random pairs of faults, plus scripts "
+                       "'suspend an actor while it is blocked on a put/get/exec; turn a resource off 0-1000 ticks later (half of them: "
+                       "a link or the peer host of its communication); resume it 1-500 ticks after that'. non-trivial "
                        "= at the failure date some actor is on the failed host or blocked on an activity using the failed resource; "
                        "distinct = distinct (program, faults)" % len(CORPUS))
     dist = {"programs": 0, "single_faults": 0, "fault_pairs": 0, "host_faults": 0, "link_faults": 0, "actors_killed": 0,
@@ -275,6 +292,24 @@ def run(ctx):
         for (fk, fid) in res:
             for d in cand:
                 jobs.append((prog, [(fk, fid, d)]))
+        # an actor is suspended while it is blocked, a resource goes off meanwhile, the actor is resumed later
+        blocked = [(e[1], e[3]) for e in ev if e[0] == "S" and prog["progs"][e[1]][e[2]][0] in (1, 2, 3, 5)]
+        for _ in range((ctx.n(8, 40) if pi >= len(CORPUS) else 24) if blocked else 0):
+            a, d0 = rng.choice(blocked)
+            d1 = d0 + rng.choice([0, 1, 1, 8, 100]) * TICK
+            d2 = d1 + rng.choice([0, 1, 8, 100, 1000]) * TICK
+            d3 = d2 + rng.choice([1, 64, 500]) * TICK
+            fk, fid = rng.choice(res)
+            if rng.random() < 0.5:
+                # aim at a resource the actor's operation uses
+                o = [o for o in prog["progs"][a] if o[0] in (1, 2)]
+                peers = [b for b in range(len(prog["hosts"])) if b != a and o and any(q[0] in (1, 2) and q[1] == o[0][1] for q in prog["progs"][b])]
+                if peers and prog["hosts"][a] != prog["hosts"][peers[0]]:
+                    i, j = sorted((prog["hosts"][a], prog["hosts"][peers[0]]))
+                    fk, fid = rng.choice([(2, LINKS.index((i, j))), (2, nlinks(prog) - 1), (1, prog["hosts"][peers[0]])])
+            jobs.append((prog, [(3, a, d1), (fk, fid, d2), (4, a, d3)]))
+        for sc in prog.get("scripts", []):
+            jobs.append((prog, [(k, i, d * TICK) for (k, i, d) in sc]))
         for _ in range(ctx.n(10, 40)):
             f1, f2 = rng.sample(res, 2)
             d1, d2 = sorted([rng.choice(cand), rng.choice(cand)])
@@ -293,14 +328,21 @@ def run(ctx):
         except (ValueError, AssertionError, IndexError) as e:
             ctx.fail("driver-crash", "unparsable output: %s" % e, case)
             continue
-        dist["single_faults" if len(faults) == 1 else "fault_pairs"] += 1
+        nfl = sum(1 for f in faults if f[0] in (1, 2))
+        dist["single_faults" if nfl == 1 else "fault_pairs"] += 1
+        dist["runs_with_suspension"] = dist.get("runs_with_suspension", 0) + (nfl < len(faults))
         obs = observations(prog, faults, ev)
-        if len(obs) < len(faults):
-            dist["fault_not_reached"] += len(faults) - len(obs)
+        if len(obs) < nfl:
+            dist["fault_not_reached"] += nfl - len(obs)
         dist["deadlocks_after_fault"] += any(e[0] == "L" for e in ev)
         for (words, outcome, T, f, kinds) in obs:
             oin.append(words)
             meta.append((case, outcome, T, f, kinds))
+            A = len(prog["hosts"])
+            p = [i for i, e in enumerate(ev) if e[0] == "F" and e[1] == T][0]
+            dist["suspended_waiters_of_failed_resource"] = dist.get("suspended_waiters_of_failed_resource", 0) + sum(
+                1 for e in ev[p + 1:p + 1 + A] if e[0] == "W" and e[6] == 1 and e[2] in (2, 4) and
+                (f[1] in e[5] if f[0] == 2 else f[1] in (e[3], e[4])))
             if f[0] == 2:
                 nfl, nyoung = flows_on(prog, ev, f, T)
                 dist["link_faults_on_shared_link"] += nfl >= 2
@@ -334,21 +376,30 @@ def run(ctx):
         "CommImpl state / source / destination / traversed links) inside the kernel call that turns the resource off",
         "state profiles are not exercised: the resource is turned off through Host::turn_off / Link::turn_off",
         "CM02 network model without cross-traffic nor TCP window; every link has the same latency",
-        "resources are not turned back on; actors do not auto-restart"]
+        "resources are not turned back on; actors do not auto-restart",
+        "an actor that is suspended when the resource goes off is judged on what the operation it was blocked on raises when the "
+        "control actor resumes it (a suspended actor makes no step before): exception kind, or successful return; when it is on the "
+        "failed host it must be killed at the failure date like any other"]
 
 
 META = {
     "level": "fault_enumeration",
-    "text": "Every host and every link is turned off at every distinct event date of the fault-free run (and one tick before/after), plus "
-            "random pairs of faults, over generated communicating programs; each actor's observation (killed with on_exit failed flag, "
-            "exception kind at the failure date, blocked at the final deadlock report) is judged by a verified oracle. Coq theorems (small): "
-            "C10_oracle_sound (an accepted run has every live actor of the failed host killed with failed=true, every surviving waiter of an "
-            "activity using the off resource served NetworkFailure/HostFailure, nobody blocked for ever on such an activity), "
-            "C10_all_waiters_answered / C10_exception_kind / C10_on_exit_failed_true about the verified outcome function that the observed "
-            "outcomes are compared with, C10_model_passes_oracle.",
+    "text": "Every host and every link is turned off at every distinct event date of the fault-free run (and one tick before/after; with "
+            "link latencies also in the middle and at the end of the latency phase of every operation), plus random pairs of faults and "
+            "scripts that suspend a blocked actor, turn a resource off and resume the actor, over generated communicating programs (links "
+            "shared by several flows started at different dates, optional backbone link, dyadic latencies); each actor's observation "
+            "(killed with on_exit failed flag, exception kind at the failure date, successful return of the operation it was blocked on, "
+            "blocked at the final deadlock report) is judged by a verified oracle. Coq theorems (small): C10_oracle_sound (an accepted run "
+            "has every live actor of the failed host killed with failed=true, every surviving waiter of an activity using the off resource "
+            "served NetworkFailure/HostFailure, nobody blocked for ever on such an activity, no operation blocked on such an activity "
+            "returning successfully afterwards), C10_oracle_rejects_success_through_off, C10_all_waiters_answered / C10_exception_kind / "
+            "C10_on_exit_failed_true / C10_no_success_through_off_resource about the verified outcome function that the observed outcomes "
+            "are compared with, C10_model_passes_oracle.",
     "note": "Only the failure-handling step is modelled (outcome per actor from the kernel's pre-failure view); the engine dynamics are "
-            "covered by the enumeration, not by proof. Not covered: state profiles, restart/auto-restart, detached or asynchronous "
-            "communications, disks and VMs.",
+            "covered by the enumeration, not by proof. Fixed defect 36e83ed0fb (a failure on an activity whose waiter is suspended crashed "
+            "the simulation; the exception is now raised when the actor is resumed). Catches seeded C10-a (lmm Constraint::get_variable not "
+            "going on to the disabled variables: flows in their latency phase or suspended survive a link failure). Not covered: state "
+            "profiles, restart/auto-restart, detached or asynchronous communications, disks and VMs, other network models than CM02.",
     "technique": "fault enumeration + verified oracle (Coq) + extracted outcome function as reference",
     "claimed": True,
 }
